@@ -366,7 +366,13 @@ class CompositeConfigParser(ConfigFileParser):
 
     def parse(self, stream:TextIO) -> Dict[str, Any]:
         errors = []
-        for p in self.parsers:
+        parsers = self.parsers
+        # An INI file that happens to be valid TOML (a pydoctor.ini, say) must be read with the INI quoting 
+        # rules: try first the parser that the file extension calls for.
+        name = getattr(stream, 'name', None)
+        if isinstance(name, str) and name.endswith(('.ini', '.cfg')):
+            parsers = sorted(parsers, key=lambda p: not isinstance(p, IniConfigParser))
+        for p in parsers:
             try:
                 return p.parse(stream) # type: ignore[no-any-return]
             except Exception as e:
